@@ -250,13 +250,14 @@ func rtEventPhy(c *ctx, val M, phy *lorawan.PHYPayload) M {
 	if res != "" {
 		return ev
 	}
-	ev["bytes"] = bs(b)
 	var txt []byte
 	tres, _ := observeFast(func() error {
 		var err error
 		txt, err = phy.MarshalText()
 		return err
 	})
+	disturb() // both results are read after the library may have been used for other values
+	ev["bytes"] = bs(b)
 	ev["terr"] = tres
 	ev["text"] = bs(txt)
 	var un lorawan.PHYPayload
